@@ -1122,3 +1122,6 @@ EXPLANATION += (
 ASSUMPTIONS = ["the reference predicates in rules/c09.py state the documented typing rules (docs/*.md plus the rule comments in resolver.rs)", "infer_expr_type yields the operand's static type"]
 TRUSTED = ["rustc nightly HIR name resolution and MIR", "nsx exporter", "nsverif pattern evaluator / partial evaluator"]
 NONTRIVIAL = "one obligation per typing cell (640), per accepted concrete cell, per single-operand rule and per rule-presence row; distinct = distinct cell/row"
+EXPLANATION += (
+    ' Round 6: R11 `always returns` is a must-analysis, kind by kind (return yes; if only with both branches, a missing else never; loop never; block its statements; everything else no; a sequence when some statement does, starting from false). R12 shares C04-R11. R13: the parser reads placeholder names with the identifier alphabet (letters, digits, underscore after the first character).'
+)
